@@ -49,6 +49,15 @@ def main(argv) -> int:
                 want = json.load(fh)["key"]
             unlisted = [v for v in unlisted if v.key == want]
         front = front_summary(repo)
+        if tier == "thorough" and not replay:
+            st = _selftest(prop)
+            rep.extra["selftest"] = st
+            if st.get("failed") and not unlisted:
+                # the checker lost detection power (or raises a false alarm) on its own mutant catalogue
+                print(f"ANALYSIS-ERROR property={prop}: self-test regression: {st['failed']}")
+                wall = time.time() - t0
+                core.write_evidence(rep, seed, wall, 0, known_hits, front)
+                return 2
         wall = time.time() - t0
         core.write_evidence(rep, seed, wall, len(unlisted), known_hits, front)
         for v in unlisted:
@@ -64,6 +73,29 @@ def main(argv) -> int:
         if name != "AnalysisError":
             traceback.print_exc()
         return 2
+
+
+def _selftest(prop):
+    """Thorough tier: run this property's catalogue of must-fire mutants / must-stay-silent refactors against scratch
+    copies of the current tree (16-way parallel).  Cases whose text edit no longer applies are counted as skipped."""
+    from concurrent.futures import ThreadPoolExecutor
+    try:
+        from .selftest import harness
+        cases = harness.load_cases([prop])
+    except Exception as e:  # noqa: BLE001
+        return {"cases": 0, "note": f"no self-test catalogue ({type(e).__name__})"}
+    res = {"cases": len(cases), "must_fire_detected": 0, "must_stay_silent_ok": 0, "skipped_not_applicable": 0, "failed": []}
+    if not cases:
+        return res
+    with ThreadPoolExecutor(max_workers=16) as ex:
+        for c, status, msg in ex.map(harness.run_case, cases):
+            if status == "ok":
+                res["must_fire_detected" if c["expect"] == "fire" else "must_stay_silent_ok"] += 1
+            elif status == "BROKEN":
+                res["skipped_not_applicable"] += 1
+            else:
+                res["failed"].append(f"{c['id']} ({c['expect']}): {c.get('desc', '')}: {msg[:160]}")
+    return res
 
 
 if __name__ == "__main__":
